@@ -247,5 +247,47 @@ def r19_5(ctx):
     return r
 
 
+RECV = "<transports::rtp::RtpTransport as transports::PacketReceiver>::receive::{closure#0}"
+
+
+def r19_6(ctx):
+    """demultiplexing precedence: RID, then MID, then the bound SSRC, then a unique payload type, then the
+    single provisional listener - and every stage is tried when the one before found nothing. A packet that
+    names a registered MID must not be routed by a stale SSRC binding just because it also carries an unknown
+    RID; a bound SSRC must not beat an explicit MID."""
+    r = RuleResult("R19.6", "K4", "RTP demux stages are tried in the order RID, MID, SSRC, unique PT, provisional, each falling through to the next")
+    b = ctx.body(RECV)
+    r.scope.append(RECV)
+
+    def stage_blocks(pred):
+        return [bi for bi, t, p in b.calls() if p and pred(p, t)]
+
+    def on_field(t, f):
+        return bool(t["a"]) and mir.has_field(b.term_operand(t["a"][0]), f)
+    stages = [
+        ("RID", stage_blocks(lambda p, t: p.endswith("HashMap::<K, V, S, A>::get") and on_field(t, "by_rid"))),
+        ("MID", stage_blocks(lambda p, t: p.endswith("ListenerRegistry::by_mid"))),
+        ("SSRC", stage_blocks(lambda p, t: p.endswith("HashMap::<K, V, S, A>::get") and on_field(t, "by_ssrc"))),
+        ("unique PT", stage_blocks(lambda p, t: p.endswith("ListenerRegistry::unique_by_pt"))),
+        ("provisional", stage_blocks(lambda p, t: p.endswith("ListenerRegistry::single_provisional"))),
+    ]
+    for name, bl in stages:
+        if len(bl) != 1:
+            raise core.CheckerError("R19.6: expected exactly one %s lookup in receive, found %d" % (name, len(bl)))
+    for (n1, b1), (n2, b2) in zip(stages, stages[1:]):
+        x, y = b1[0], b2[0]
+        fwd = y in b.reachable([t for t, _ in b.succ_edges(x)], cut_edges=b.back_edges())
+        back = x in b.reachable([t for t, _ in b.succ_edges(y)], cut_edges=b.back_edges())
+        if fwd and not back:
+            r.ok({"stage": "%s -> %s" % (n1, n2), "at": "%s -> %s" % (b.where(x), b.where(y))})
+        elif not fwd:
+            r.violate(RECV, "demux:%s->%s" % (n1, n2), b.where(x),
+                      "after the %s lookup the %s lookup can no longer be reached: a packet whose %s is unknown skips %s routing "
+                      "and falls to a later, weaker stage" % (n1, n2, n1, n2))
+        else:
+            r.violate(RECV, "demux:%s->%s" % (n1, n2), b.where(x), "%s lookup no longer precedes the %s lookup" % (n1, n2))
+    return r
+
+
 def run(ctx):
-    return [r19_1(ctx), r19_2(ctx), r19_3(ctx), r19_4(ctx), r19_5(ctx)]
+    return [r19_1(ctx), r19_2(ctx), r19_3(ctx), r19_4(ctx), r19_5(ctx), r19_6(ctx)]
